@@ -68,6 +68,9 @@ def gen_plan(prop, seed, index, tier="quick"):
         "metadata_max_age_ms": r.choice([500, 2000, 300000]),
         "consumer_timeout_ms": r.choice([20, 200]),
     }
+    napping = prop in ("C05", "C06", "C04") and r.random() < 0.2
+    if napping:
+        base_kw["max_poll_interval_ms"] = r.choice([300, 500, 800])
     nmem = r.randint(1, 4) if prop != "C13" else r.randint(1, 2)
     horizon = r.choice([4.0, 8.0, 15.0])
     members = []
@@ -84,6 +87,11 @@ def gen_plan(prop, seed, index, tier="quick"):
             "commit_every": 0 if auto else r.choice([0, 1, 3, 8]),
             "cb_delay": r.choice([0.0, 0.0, 0.01, 0.2]) if prop == "C05" else 0.0,
             "static": (prop in ("C06", "C05") and join_max >= 5 and r.random() < 0.15),
+            # stops polling for longer than max_poll_interval_ms once (the member leaves the
+            # group by itself, others take over, then the application comes back)
+            "nap": ({"after_polls": r.randint(2, 30), "d": round(base_kw["max_poll_interval_ms"] / 1000
+                                                               * r.choice([1.5, 3.0, 6.0]), 2)}
+                    if napping and r.random() < 0.6 else None),
         })
     # environment script
     env = []
@@ -153,6 +161,12 @@ def gen_plan(prop, seed, index, tier="quick"):
                 faults.append({"on": trig, "do": "lose_response"})
             else:
                 faults.append({"on": trig, "do": {"delay": r.choice([0.01, 0.2])}})
+    if prop in ("C04", "C05") and r.random() < 0.25:
+        # one fetch response corrupted on the way (a later batch of it): the consumer raises
+        # CorruptRecordException, the application polls again, nothing may be skipped
+        for _ in range(r.randint(1, 2)):
+            faults.append({"on": {"request": "Fetch", "nth": r.randint(1, 12)}, "do": "corrupt_once"})
+        base_kw["check_crcs"] = True
     if prop == "C13" and r.random() < 0.35:
         # the committed-offset lookup itself failing with a retriable coordinator error
         faults.append({"on": {"request": "OffsetFetch", "nth": r.randint(1, 3)},
@@ -184,7 +198,7 @@ def gen_plan(prop, seed, index, tier="quick"):
             lg["segments"] = segs
         base_kw["isolation_level"] = r.choice(["read_committed", "read_committed", "read_uncommitted"])
         base_kw["max_partition_fetch_bytes"] = r.choice([300, 1000, 1048576, 1048576])
-        base_kw["check_crcs"] = r.random() < 0.7
+        base_kw["check_crcs"] = r.random() < 0.7 or any(f.get("do") == "corrupt_once" for f in faults)
     committed = {}
     if prop == "C13":
         for lg in logs:
@@ -301,7 +315,14 @@ def execute(plan):
                 for d in seg["descs"]:
                     mbytes = max(mbytes, len(loggen.encode_desc(t, int(p), d)))
             continue
-        append((t, int(p)), lg["n"])
+        left = lg["n"]
+        k = 0
+        while left > 0:
+            # several batches, so that one response usually carries more than one
+            take = min(left, 2 + (k * 7 + lg["n"]) % 5)
+            append((t, int(p)), take)
+            left -= take
+            k += 1
         for at in lg["appends"]:
             world.at(at, append, (t, int(p)), 1 + (int(at * 1000) % 3))
     if "max_partition_fetch_bytes" in kw:
@@ -428,6 +449,14 @@ def execute(plan):
                         for rec in recs:
                             record(m, rec)
                 polls += 1
+                nap = spec.get("nap")
+                if nap and polls == nap["after_polls"]:
+                    world.count_fault("poller_nap", world.now() + nap["d"] + kw["max_poll_interval_ms"] / 1000)
+                    world.log.add(world.now(), "nap_begin", m.cid)
+                    env_log.append((world.log.seq, world.now(), "nap", m.cid))
+                    await asyncio.sleep(nap["d"])
+                    world.log.add(world.now(), "nap_end", m.cid)
+                    env_log.append((world.log.seq, world.now(), "nap_end", m.cid))
                 if spec["commit_every"] and polls % spec["commit_every"] == 0:
                     await consumer.commit()
             except Errors.ConsumerStoppedError:
@@ -725,6 +754,24 @@ def check_deliveries(plan, world, cl, ctx, prop):
                             "member": m.cid, "tp": list(tp), "after": a, "got": b,
                             "next_visible": nxt.get(a)})
                         break
+        # a member that left the group by itself (LeaveGroup) owns nothing until it has
+        # completed a SyncGroup again
+        leaves = [e for e in cl.groups.ledger if e["kind"] == "leave" and e.get("client") == m.cid
+                  and e.get("code") == 0]
+        if leaves:
+            syncs = [e["seq"] for e in cl.groups.ledger if e["kind"] == "sync_resp"
+                     and e.get("client") == m.cid and e.get("code") == 0]
+            for d in m.deliveries:
+                lv = [e for e in leaves if e["seq"] < d[0] and e["t"] < world.log.events[0][1] + 10**9]
+                if not lv:
+                    continue
+                last = lv[-1]
+                if any(last["seq"] < sq < d[0] for sq in syncs):
+                    continue
+                world.violation("C05" if prop != "C04" else prop, "record_delivered_after_leaving_group", {
+                    "member": m.cid, "tp": list(d[1]), "offset": d[2], "left_at_seq": last["seq"],
+                    "delivered_at_seq": d[0]})
+                break
         # deliveries outside any ownership window
         for d in m.deliveries:
             if not d[3]:
